@@ -48,7 +48,10 @@
 (* the other (MC_WsImpl_pinned.cfg).  The scripts that are replayed into   *)
 (* the code are generated from the model of the tree as it is: since       *)
 (* /repo 4ef0222, 8020218, 8c78f49 that is the repaired model              *)
-(* (MC_WsImpl_script.cfg: FixDup = FixDel = FixInit = TRUE).               *)
+(* (MC_WsImpl_script.cfg: FixDup = FixDel = FixInit = TRUE), except for    *)
+(* FixLate = FALSE (open finding: after the close(4409) of a refused       *)
+(* duplicate start the run loop reads on, and a start already buffered is  *)
+(* registered after close() went through `active`).                        *)
 (***************************************************************************)
 EXTENDS Ws, Json
 
@@ -62,6 +65,7 @@ CONSTANTS
   SrcKinds,                      \* ways a Source may end by itself: subset of {"end","suberr","panic"}
   MaxMsgs, K, MaxTicks,
   FixDup, FixDel, FixInit,
+  FixLate,                       \* subscribe() refuses to register once `closed` is set
   PreAcked,                      \* TRUE: start right after an accepted handshake (reader in the run loop)
   Bursts,                        \* Sync only: the client may put a second message right behind init / start
                                  \* (two frames in one TCP write: the reader finds it without any delay)
@@ -285,7 +289,8 @@ Setup ==
 RunProg(m) ==
   CASE m.m = "start" ->
          IF m.kind = "bad" THEN <<WrI("error", m.i, 0), WrI("complete", m.i, 0), O("read")>>
-         ELSE IF FixDup /\ m.id \in DOMAIN active THEN <<Wr("cerr"), Cl(4409), O("ret")>>
+         \* (8c78f49: connection_error + close(4409), and subscribe returns INTO THE RUN LOOP)
+         ELSE IF FixDup /\ m.id \in DOMAIN active THEN <<Wr("cerr"), Cl(4409), O("read")>>
          ELSE <<Op("reg", "", m.id, m.i, 0), O("read")>>
     [] m.m = "stop" -> <<Op("look", "", m.id, "", 0), O("read")>>
     [] m.m = "term" -> <<Cl(1000), O("ret")>>
@@ -300,7 +305,9 @@ Read ==
   /\ \/ /\ connClosed                                       \* closed by us: net.ErrClosed, not reported
         /\ Goto("R", <<O("ret")>>) /\ UNCHANGED inbox
         /\ A("ReadClosed", "", "", 0)
-     \/ /\ ~connClosed /\ inbox # <<>>
+     \* (also after conn.Close(): a frame that arrived in the same TCP segment as the previous one sits
+     \*  in the connection's read buffer and is returned by NextMessage all the same)
+     \/ /\ inbox # <<>>
         /\ Goto("R", RunProg(Head(inbox))) /\ inbox' = Tail(inbox)
         /\ A("Read", Head(inbox).m, Head(inbox).i, 0)
   /\ UNCHANGED <<w, c, viol, nsent, cgone, sub, mu, active, closed, connClosed, ccancel, srvCancelled, runCancelled,
@@ -318,11 +325,15 @@ Deadline ==
 Reg ==
   /\ At("R", "reg") /\ mu = "free"
   /\ LET o == Head1("R") IN
-       /\ active' = [x \in DOMAIN active \cup {o.id} |-> IF x = o.id THEN o.i ELSE active[x]]
-       /\ prog' = [prog EXCEPT !["R"] = Tail(prog["R"]), ![o.i] = <<O("start"), O("call")>>]
-       \* (observation only: the entry of an operation that has not been terminated towards the client is overwritten)
-       /\ w' = (IF o.id \in DOMAIN active /\ w.I[active[o.id]].cp = 0 /\ w.I[active[o.id]].er = 0 THEN [w EXCEPT !.devs = w.devs \cup {"dupreg"}] ELSE w)
-       /\ A("Reg", o.id, o.i, 0)
+       IF FixLate /\ closed
+         THEN \* proposed repair: `if c.closed { c.mu.Unlock(); cancel(); return }`
+              /\ Pop("R") /\ UNCHANGED <<active, w>>
+              /\ A("RegRefused", o.id, o.i, 0)
+         ELSE /\ active' = [x \in DOMAIN active \cup {o.id} |-> IF x = o.id THEN o.i ELSE active[x]]
+              /\ prog' = [prog EXCEPT !["R"] = Tail(prog["R"]), ![o.i] = <<O("start"), O("call")>>]
+              \* (observation only: the entry of an operation that has not been terminated towards the client is overwritten)
+              /\ w' = (IF o.id \in DOMAIN active /\ w.I[active[o.id]].cp = 0 /\ w.I[active[o.id]].er = 0 THEN [w EXCEPT !.devs = w.devs \cup {"dupreg"}] ELSE w)
+              /\ A("Reg", o.id, o.i, 0)
   /\ UNCHANGED <<c, viol, inbox, nsent, cgone, sub, mu, closed, connClosed, ccancel, srvCancelled, runCancelled,
                  reqCancelled, fnres, reason, ticks, recvPong, deadline>>
 
